@@ -120,8 +120,9 @@ func TestC05(t *testing.T) {
 	ev.Explore(run, t, "digraph", run.N(2500, 40000), gen, exec)
 	// the catalogue graphs under priority schedules (PCT): every ordering bug of small depth has a
 	// known lower bound on its probability per run
-	names := []string{"walk-while-finishing", "diamond", "fork-to-cycle", "cycle-off-root", "three-cycle", "fan", "two-cycle", "self-loop"}
-	ev.Explore(run, t, "catalogue-pct", run.N(2500, 40000), func(rt *rapid.T) rungraph.Case {
+	// (the acyclic graphs with a finishing walk, where a stale wait edge shows as a false cycle, are drawn more often)
+	names := []string{"walk-while-finishing", "walk-while-finishing", "walk-while-finishing", "diamond", "diamond", "fork-to-cycle", "cycle-off-root", "three-cycle", "fan", "two-cycle", "self-loop"}
+	ev.Explore(run, t, "catalogue-pct", run.N(6000, 60000), func(rt *rapid.T) rungraph.Case {
 		name := rapid.SampledFrom(names).Draw(rt, "graph")
 		return rungraph.Case{Nodes: catalogue[name], Root: 0, Pol: rungraph.GenPCT(rt, 130)}
 	}, exec)
